@@ -313,3 +313,209 @@ PROPS['C11'] = {'gen': gen_c11, 'monitors': [monitors.mon_flat_memory]}
 PROPS['C15'] = {'gen': gen_c15, 'monitors': [monitors.mon_flat_memory, monitors.mon_video]}
 PROPS['C20'] = {'gen': gen_c20, 'monitors': [monitors.mon_mouse]}
 PROPS['C16'] = {'gen': gen_c16, 'monitors': [monitors.mon_reset]}
+
+
+# --------------------------------------------------------------------------- DUART histories
+
+REGS_MEANINGFUL = [0x03, 0x07, 0x0b, 0x0f, 0x13, 0x17, 0x23, 0x27, 0x2b, 0x2f, 0x37, 0x3b, 0x3f]
+CMDS = [0x01, 0x02, 0x04, 0x08, 0x05, 0x0a, 0x03, 0x0c, 0x10, 0x20, 0x30, 0x40, 0x50, 0x60, 0x70, 0x15, 0x25, 0x35, 0x45, 0x00, 0xff]
+MODES = [0x00, 0x13, 0x80, 0x93, 0xc0, 0x40, 0x07]
+ALPHA = [0x00, 0x01, 0x02, 0x41, 0x7f, 0x80, 0xff]
+TSTEPS = [50, 1000, 100000, 999999, 1000000, 1000001, 1100000, 5000000, 16666666, 16666667, 20000000, 166666666]
+
+
+class DuartGen:
+    def __init__(self, g, allow_loopback=True, allow_reset=True):
+        self.g = g
+        self.r = g.rnd
+        self.t = 0
+        self.lb = allow_loopback
+        self.rst = allow_reset
+
+    def adv(self, ops, dt=None):
+        self.t += dt if dt is not None else self.r.choice(TSTEPS)
+        ops += ['t:%x' % self.t, 'sv']
+
+    def byte(self):
+        return self.r.choice(ALPHA) if self.r.random() < 0.7 else self.r.randrange(256)
+
+    def chan(self):
+        return self.r.choice([0, 0x20])
+
+    def cmd(self):
+        c = self.r.choice(CMDS) if self.r.random() < 0.8 else self.r.randrange(256)
+        if not self.rst and ((c >> 4) & 7) in (2, 3):
+            c &= 0x8f
+        return c
+
+    def mode(self):
+        m = self.r.choice(MODES) if self.r.random() < 0.8 else self.r.randrange(256)
+        if not self.lb and (m & 0xc0) == 0x80:
+            m &= 0x3f
+        return m
+
+    def random_op(self, ops):
+        r = self.r
+        c = r.random()
+        ch = self.chan()
+        if c < 0.10:
+            ops.append('q%s:%x' % ('a' if r.random() < 0.5 else 'b', self.byte()))
+        elif c < 0.25:
+            self.adv(ops)
+        elif c < 0.33:
+            ops += ['rb:%x' % (0x200007 + ch), 'rb:%x' % (0x20000f + ch)]
+        elif c < 0.38:
+            ops.append('rb:%x' % (0x20000f + ch))
+        elif c < 0.46:
+            ops += ['rb:%x' % (0x200007 + ch), 'wb:%x:%x' % (0x20000f + ch, self.byte())]
+        elif c < 0.50:
+            ops.append('wb:%x:%x' % (0x20000f + ch, self.byte()))
+        elif c < 0.60:
+            ops.append('wb:%x:%x' % (0x20000b + ch, self.cmd()))
+        elif c < 0.64:
+            ops.append('wb:%x:%x' % (0x200003 + ch, self.mode()))
+        elif c < 0.68:
+            ops.append('wb:%x:%x' % (0x200007 + ch, r.randrange(256)))
+        elif c < 0.72:
+            ops.append(r.choice(['pa', 'pb']))
+        elif c < 0.80:
+            ops.append('gi')
+        elif c < 0.84:
+            ops.append('rb:%x' % (0x200000 + r.choice(REGS_MEANINGFUL)))
+        elif c < 0.88:
+            ops.append('wb:%x:%x' % (0x200000 + r.choice(REGS_MEANINGFUL), r.randrange(256)))
+        elif c < 0.90:
+            off = r.randrange(0x40)
+            k = r.choice(ACC[:6])
+            a = 0x200000 + off
+            if k[1] == 'h':
+                a &= ~1
+            if k[1] == 'w':
+                a &= ~3
+            ops.append(acc_op(k, a, r.randrange(1 << 32)))
+        elif c < 0.93:
+            ops.append(r.choice(['md', 'mu']) + ':%x' % r.choice([0, 1, 2, 3, 0xff]))
+        elif c < 0.97:
+            ops.append('ds')
+        else:
+            ops.append('do')
+
+
+def gen_duart(prefix, tier, seed, nq, nt, flavour):
+    g = G(prefix, seed)
+    r = g.rnd
+    n = nq if tier == 'quick' else nt
+    for i in range(n):
+        dg = DuartGen(g, allow_loopback=(flavour in ('c14', 'c17') or r.random() < 0.25),
+                      allow_reset=(flavour != 'c09' or r.random() < 0.2))
+        ops = []
+        if r.random() < 0.85:
+            ops += ['wb:20000b:%x' % r.choice([5, 5, 1, 4, 0x15]), 'wb:20002b:%x' % r.choice([5, 5, 1, 4, 0x15])]
+        if flavour == 'c08':
+            # receive path: bursts of arrivals, paced service, gated reads, fill levels up to 3+1+overrun
+            for _ in range(r.randrange(3, 12)):
+                c = r.random()
+                ch = dg.chan()
+                q = 'qa' if ch == 0 else 'qb'
+                if c < 0.45:
+                    for _ in range(r.randrange(1, 7)):
+                        ops.append('%s:%x' % (q, dg.byte()))
+                    for _ in range(r.randrange(0, 7)):
+                        dg.adv(ops, r.choice([1000000, 1000001, 2000000, 500000]))
+                elif c < 0.8:
+                    for _ in range(r.randrange(1, 6)):
+                        ops += ['rb:%x' % (0x200007 + ch), 'rb:%x' % (0x20000f + ch)]
+                else:
+                    for _ in range(r.randrange(1, 4)):
+                        dg.random_op(ops)
+        elif flavour == 'c09':
+            for _ in range(r.randrange(3, 12)):
+                c = r.random()
+                ch = dg.chan()
+                if c < 0.5:
+                    for _ in range(r.randrange(1, 5)):
+                        ops += ['rb:%x' % (0x200007 + ch), 'wb:%x:%x' % (0x20000f + ch, dg.byte())]
+                        for _ in range(r.randrange(0, 4)):
+                            dg.adv(ops, r.choice([1000000, 1000001, 2000000, 500000]))
+                elif c < 0.7:
+                    ops += [r.choice(['pa', 'pb']) for _ in range(r.randrange(1, 4))]
+                else:
+                    for _ in range(r.randrange(1, 4)):
+                        dg.random_op(ops)
+        elif flavour == 'c17':
+            # pacing: pick a rate, queue bytes both ways, step time at a fixed granularity, snapshot after every step
+            ch = dg.chan()
+            code = r.randrange(16)
+            if r.random() < 0.5:
+                ops.append('wb:200013:%x' % r.choice([0, 0x80]))
+            ops.append('wb:%x:%x' % (0x200007 + ch, (code << 4) | r.randrange(16)))
+            for _ in range(r.randrange(2, 6)):
+                ops.append('%s:%x' % ('qa' if ch == 0 else 'qb', dg.byte()))
+            gran = r.choice([50, 1000, 50000, 1000000, 217013, 4000000])
+            for k in range(r.randrange(10, 60)):
+                if r.random() < 0.2:
+                    ops += ['rb:%x' % (0x200007 + ch), 'wb:%x:%x' % (0x20000f + ch, dg.byte())]
+                if r.random() < 0.2:
+                    ops += ['rb:%x' % (0x200007 + ch), 'rb:%x' % (0x20000f + ch)]
+                mult = r.choice([1, 1, 1, 10, 100, 1000]) if gran < 100000 else 1
+                dg.adv(ops, gran * mult)
+                ops += ['gi', 'ds']
+                if r.random() < 0.1:
+                    ops.append('rb:200013')
+        else:
+            for _ in range(r.randrange(6, 60)):
+                dg.random_op(ops)
+        ops.append('ds')
+        g.add(ops, flavour)
+    return g
+
+
+def gen_c08(tier, seed):
+    g = gen_duart('f', tier, seed, 2500, 80000, 'c08')
+    # exhaustive short histories over a tiny alphabet on channel A
+    import itertools
+    alpha = ['qa:41', 'qa:42', 't+', 'rd', 'wb:20000b:20', 'wb:20000b:1']
+    depth = 5 if tier == 'quick' else 7
+    for combo in itertools.product(alpha, repeat=depth):
+        ops = ['wb:20000b:1']
+        t = 0
+        for c in combo:
+            if c == 't+':
+                t += 1000000
+                ops += ['t:%x' % t, 'sv']
+            elif c == 'rd':
+                ops += ['rb:200007', 'rb:20000f']
+            else:
+                ops.append(c)
+        ops += ['rb:200007', 'rb:20000f', 'ds']
+        g.add(ops, 'exhaustive')
+    return g.result('Receive-path histories on both channels: bursts of host enqueues, paced service calls, status-gated and '
+                    'ungated RHR reads, enable/disable/reset commands, all FIFO fill levels up to 3+1+overrun, plus all '
+                    'histories of length 5 (quick) / 7 (thorough) over {enqueue 2 values, 1 ms step, gated read, reset rx, enable rx}.')
+
+
+def gen_c09(tier, seed):
+    g = gen_duart('g', tier, seed, 2500, 80000, 'c09')
+    return g.result('Transmit-path histories on both channels: status-gated and ungated THR writes, service at and around the '
+                    'character time, host polls, enable/disable/reset-transmitter and mode (loop-back) commands.')
+
+
+def gen_c14(tier, seed):
+    g = gen_duart('h', tier, seed, 3000, 100000, 'c14')
+    return g.result('Random histories over all DUART operations: reads/writes of every register offset with any value and width, '
+                    'host enqueues/polls, mouse-button events, time steps straddling deadlines, interrupt polls, snapshots.')
+
+
+def gen_c17(tier, seed):
+    g = gen_duart('i', tier, seed, 1200, 30000, 'c17')
+    return g.result('Pacing runs: every clock-select code (0-15) x both baud sets x both channels x both directions, time '
+                    'advanced at granularities from 50 ns to 4 ms, snapshot after every service call.')
+
+
+PROPS['C08'] = {'gen': gen_c08, 'monitors': [monitors.mon_rx_path]}
+PROPS['C09'] = {'gen': gen_c09, 'monitors': [monitors.mon_tx_path]}
+PROPS['C14'] = {'gen': gen_c14, 'monitors': [monitors.mon_status_truth]}
+PROPS['C17'] = {'gen': gen_c17, 'monitors': [monitors.mon_pacing], 'assumptions': ['virtual clock only: std::time::Instant of the unguarded build is not modelled']}
+
+
+import cpucases  # noqa: E402,F401  (registers C02-C05)
